@@ -40,7 +40,8 @@ class OsuHit(Hit, OsuNoteMeta):
             raise ValueError(f"Bad OsuHit Format. {s}")
 
         s_comma = s.split(",")
-        s_colon = s_comma[-1].split(":")
+        # An omitted hitSample is 0:0:0:0:
+        s_colon = s_comma[5].split(":") if len(s_comma) > 5 else ["0"] * 4 + [""]
 
         d = dict(
             offset=float(s_comma[2]),
